@@ -186,6 +186,37 @@ pub fn fold(n: usize, k: usize, buf: usize, seed: u64) -> Verdict {
                 return Verdict::viol("commit-folding", format!("commit_folding level {} differs from the time commitment of the folded polynomial", lvl));
             }
         }
+        // open_folding == the time prover's batched multi-point proof on the explicitly folded polynomials,
+        // with a committer key that is strictly longer than the polynomial (n + 3 powers for n coefficients)
+        let m = 2;
+        let (ck, _) = keys(n + 2, m, seed);
+        let cks = CommitterKeyStream::from(&ck);
+        // concrete (seeded) points: the comparison is an identity in the coefficients, challenges and eta
+        let mut prng = StdRng::seed_from_u64(seed + 4242);
+        let pts: Vec<SF> = (0..m).map(|_| SF::rand(&mut prng)).collect();
+        let eta = sym_nonzero("eta");
+        let mut etas = vec![SF::from(1u64)];
+        for _ in 1..k {
+            let l = *etas.last().unwrap();
+            etas.push(l * eta);
+        }
+        let tree = FoldedPolynomialTree::new(&s, ch.as_slice());
+        let (rems, pf_s) = cks.open_folding(tree, &pts, &etas, buf.max(k));
+        let refs: Vec<&Vec<SF>> = folds.iter().collect();
+        let pf_t = ck.batch_open_multi_points(&refs[..], &pts, &eta);
+        if pf_s != pf_t {
+            return Verdict::viol("open-folding-proof", "open_folding's proof differs from the time prover's batched multi-point proof on the folded polynomials");
+        }
+        if rems.len() != k {
+            return Verdict::viol("open-folding-len", format!("{} remainders for {} levels", rems.len(), k));
+        }
+        for lvl in 1..=k {
+            for x in &pts {
+                if eval_be(&rems[lvl - 1], *x) != horner(&folds[lvl - 1], *x) {
+                    return Verdict::viol("open-folding-remainder", format!("open_folding remainder of level {} does not interpolate the folded polynomial's evaluations", lvl));
+                }
+            }
+        }
     }
     Verdict::Hold
 }
